@@ -24,6 +24,8 @@ def spelled_text(case):
         return base, dsl.render(p0, sp)
     if kind in ("inline", "inlineall"):
         return base, dsl.render(p1)
+    if kind == "defopt1":
+        return base, dsl.render(p0, {"defopt1": i})
     if kind == "defopts":
         return base, dsl.render(p0, {"defopts": True})
     if kind == "nosemi":
@@ -84,7 +86,7 @@ def check_c08(tier):
             continue
         c = m["case"]
         kind, j, k = c["site"]
-        fname = c["prog0"]["pkts"][j - 1]["fields"][k - 1]["name"] if j else "-"
+        fname = c["prog0"]["pkts"][j - 1]["fields"][k - 1]["name"] if j else ("-" if not k else "opt%d" % k)
         base = "base%d|%s|%s" % (c["base"], kind, fname)
         v = failing.get(i)
         if not v:
